@@ -5,18 +5,27 @@ Postcondition monitors sit on the real ``Dislocation.__init__``, ``.monopole`` a
 ``atomman.defect.disregistry``.  Oracles: vf/oracle/c13_crystal.py (index
 arithmetic, the rotation onto the requested axes, same-crystal test) and
 vf/oracle/c13_disl.py (boundary regions, deletion count, uniform field, tails,
-overlap search); the workload comes from vf/gen/c13_configs.py.
+overlap search) and vf/oracle/c13_record.py (reference records: written and read
+without atomman / DataModelDict); the workload comes from vf/gen/c13_configs.py
+and vf/gen/c13_records.py.
 """
 from __future__ import annotations
 
+import copy
 import inspect
+import io
+import os
+import shutil
+import tempfile
 
 import numpy as np
 
 from ..core import fingerprint
 from ..gen import c13_configs as GEN
+from ..gen import c13_records as GR
 from ..oracle import c13_crystal as OC
 from ..oracle import c13_disl as OD
+from ..oracle import c13_record as OR
 from .. import monitor, cover
 
 RULE = ('configurations are enumerated round-robin over 8 unit-cell settings (fcc/bcc conventional with centred and '
@@ -26,7 +35,17 @@ RULE = ('configurations are enumerated round-robin over 8 unit-cell settings (fc
         'at the call), centre mode, size mode (list, default, minimum lengths, tuple) ; lattice constants, elastic '
         'constants, symmetry variant (random signed permutation), widths, centres and in-plane shift components are random. '
         'A case is non-trivial when the configuration was built (not refused) and holds more than 40 atoms; distinct = distinct '
-        'fingerprint of all inputs.  Sequences are 3-5 generator calls on ONE Dislocation object with changing shift requests.')
+        'fingerprint of all inputs.  Sequences are 3-5 generator calls on ONE Dislocation object with changing shift requests.  '
+        'Round 4: shift and centre are handed over as ndarray / list / tuple / float32 array (and a centre as Python ints), every 11th cell declares a trailing '
+        'unpopulated atom type; group "record" builds through Dislocation.fromrecord / fromdatabase from documents written by the oracle (7 ways of handing the '
+        'record over x 12 statements of the shift: absolute / relative / index / none with shiftscale spelled False, false, f, F, True, t, TRUE, JSON Booleans or '
+        'absent; Miller strings bare / bracketed / with fraction; axes and setting stated or left to their defaults), judges the object against what the TEXT '
+        'states and then generates without shift arguments; group "pair" is a history on two instances sharing the unit cell and elastic-constants objects: A '
+        '(shift chosen by array at construction / by index / from a record / by set_shift / in the first call) generates and its results are kept, the caller '
+        'overwrites every array it handed over, B is default-constructed from the same (in half the cases edited in place) cell object and generates, then A, '
+        'its kept results, a repeat of the first call with equal arguments and a deep copy of A are judged; it ends with a request naming both shift and '
+        'shiftindex (to be refused at every entry point) and with the caller writing into the arrays .shift / .shifts handed out.  The disregistry is asked '
+        'twice (ndarray, then list / tuple; documented defaults where m = x, n = y).')
 ASSUMPTIONS = [
     'the elastic displacement field is taken from the public solution object (dislsol.displacement); its correctness is property C12',
     'Burgers vectors are lattice translations; slip plane kept at least 0.2 of the plane gap away from atomic planes; core centre within L/6 of the middle',
@@ -42,6 +61,13 @@ ASSUMPTIONS = [
     'mixed lines / {123} / hcp planes where mutually orthogonal lattice vectors need not exist',
     'displacements between periodic systems (hence the disregistry) are compared modulo the periodic line vector',
     'oracle shares numpy/LAPACK with the code under test',
+    'a record states: Miller strings as documented for miller.fromstring, Booleans as documented for tools.boolean (true/t/false/f in any case, or a Boolean), '
+    'm and n defaulting to the constructor\'s y and z, conventional_setting to p, shiftscale to False; records kept in a database always state m and n (required '
+    'by the schema and read by the record\'s metadata)',
+    'the shift an object holds is the VALUE it was last asked to hold (constructor, set_shift, generator call with a shift argument, record); later changes to '
+    'the caller\'s array or to arrays the object handed out do not change that request',
+    'a deep copy of a Dislocation is a Dislocation (pickling atomman Systems is not supported and not asked for); an in-place edit of the unit cell object '
+    'after construction is only followed by generator calls with absolute boundary widths',
 ]
 CONFIG = {'quick': dict(timeout=600), 'thorough': dict(timeout=3000)}
 
@@ -102,6 +128,8 @@ class Monitors:
         self.real_init = D.__dict__['__init__']
         self.real_mono = D.__dict__['monopole']
         self.real_arr = D.__dict__['periodicarray']
+        self.real_set = D.__dict__['set_shift']
+        monitor.observe(D, 'set_shift', self.post_set_shift, label='Dislocation.set_shift')
         monitor.observe(D, '__init__', self.post_init, label='Dislocation.__init__')
         monitor.observe(D, 'monopole', self.post_monopole, pre=lambda a, k: self.pre_gen(self.real_mono, a, k), label='Dislocation.monopole')
         monitor.observe(D, 'periodicarray', self.post_array, pre=lambda a, k: self.pre_gen(self.real_arr, a, k), label='Dislocation.periodicarray')
@@ -116,10 +144,10 @@ class Monitors:
         d = a['self']
         ucell = a['ucell']
         info = dict(vects=np.array(ucell.box.vects), rel=rel_of(ucell), atype=np.array(ucell.atoms.atype),
-                    xi3=OC.as3(a['ξ_uvw']), hkl3=OC.as3(a['slip_hkl'], plane=True), b3=OC.as3(a['burgers']),
+                    xi3=np.array(OC.as3(a['ξ_uvw']), float), hkl3=np.array(OC.as3(a['slip_hkl'], plane=True), float), b3=np.array(OC.as3(a['burgers']), float),
                     mstr=a['m'] if isinstance(a['m'], str) else 'xyz'[axis_index(a['m'])],
                     nstr=a['n'] if isinstance(a['n'], str) else 'xyz'[axis_index(a['n'])])
-        m, n = OC.axis(a['m']), OC.axis(a['n'])
+        m, n = np.array(OC.axis(a['m']), float), np.array(OC.axis(a['n']), float)      # copies: the caller may overwrite what it handed over
         xi = np.cross(m, n)
         info.update(m=m, n=n, xi=xi)
         T = OC.dislocation_rotation(info['vects'], info['xi3'], info['hkl3'], m, n)
@@ -173,6 +201,8 @@ class Monitors:
                       'rcell is the ucell crystal rotated by transform: cell vectors = transform . (uvws . ucell vectors), line vector parallel to m x n, in-plane vectors perpendicular to n, atoms on the rotated lattice sites',
                       'orientation:' + cls, **det)
         info['W'] = abs(rv[cut] @ n)
+        info['natypes'] = int(ucell.natypes)                     # declared types (a trailing type may be unpopulated)
+        info['shifts0'] = np.array(d.shifts, float)              # the offered shifts as they were at construction
         d._vf = info
         rec.count('monitor_ok:init')
         if 'oblique' in cls:
@@ -201,7 +231,27 @@ class Monitors:
         else:
             req = shifts[a['shiftindex'] if a['shiftindex'] is not None else 0]
         rec.close(1e-12 * (1 + Lr), d.shift, req, 'the shift selected at construction is the requested one', 'init:shift-selection')
+        info['held'] = np.array(req, float)
         rec.count('monitor_ok:init-shifts')
+
+    # ------------------------------------------------------------- set_shift
+    def post_set_shift(self, args, kwargs, result, exc, old):
+        """Every successful shift request (direct, or through a generator) is written down by VALUE: it is what
+        the object is taken to hold from then on, whatever happens to the caller's arrays or to arrays the object
+        has handed out (the construction-time request is written down by post_init)."""
+        if exc is not None:
+            return
+        a = bind(self.real_set, args, kwargs)
+        d = a['self']
+        info = getattr(d, '_vf', None)
+        if info is None or 'rv' not in info:
+            return
+        if a['shift'] is not None:
+            req = np.asarray(a['shift'], float) @ info['rv'] if a['shiftscale'] else np.array(a['shift'], float)
+        else:
+            req = np.array(info['shifts0'][a['shiftindex'] if a['shiftindex'] is not None else 0], float)
+        info['held'] = np.array(req, float)
+        self.rec.count('monitor_ok:set_shift')
 
     # ------------------------------------------------- common to generators
     def pre_gen(self, real, args, kwargs):
@@ -219,10 +269,12 @@ class Monitors:
             req = np.asarray(a['shift'], float) @ rv if a['shiftscale'] else np.asarray(a['shift'], float)
             how = 'explicit'
         elif a['shiftindex'] is not None:
-            req = np.asarray(d.shifts, float)[a['shiftindex']]
+            req = np.asarray(info['shifts0'], float)[a['shiftindex']]
             how = 'index'
         else:
-            req = old['shift']
+            # the shift the object was last asked to hold (by value); objects the monitors did not see being
+            # asked fall back on what the object held just before the call
+            req = np.array(info['held']) if 'held' in info else old['shift']
             how = 'held'
         center = np.zeros(3) if a['center'] is None else np.asarray(a['center'], float)
         if a['centerscale']:
@@ -273,7 +325,10 @@ class Monitors:
         info = getattr(d, '_vf', None)
         msg = str(exc)
         out = dict(ok=False, exc=exc)
-        if isinstance(a.get('sizemults'), tuple) and isinstance(exc, TypeError) and 'Invalid sizemults' not in msg:
+        if a.get('shift') is not None and a.get('shiftindex') is not None and isinstance(exc, ValueError) and 'both' in msg:
+            rec.refusal(f'{kind}:shift-and-index-both-given')       # documented: "Cannot be given with shiftindex"
+            out['why'] = 'both'
+        elif isinstance(a.get('sizemults'), tuple) and isinstance(exc, TypeError) and 'Invalid sizemults' not in msg:
             rec.fail('size multipliers given as a tuple (the documented type) are accepted', f'{kind}:sizemults-tuple:TypeError', exception=exc)
             out['why'] = 'tuple'
         elif info is not None and 'oblique' in info['cls']:
@@ -349,7 +404,7 @@ class Monitors:
         rec.check(pbc == [i == line for i in range(3)], 'periodic along the dislocation line only', 'monopole:pbc', pbc=pbc, line=line)
         rec.close(1e-9 * L, disl.box.vects[line], base.box.vects[line], 'the periodic cell vector is that of the reference system', 'monopole:line-vector')
         # boundary re-typing
-        nat = int(np.max(info['atype']))
+        nat = info['natypes']
         btype = np.array(base.atoms.atype)
         dtype_ = np.array(disl.atoms.atype)
         dpos = np.array(disl.atoms.pos)
@@ -457,7 +512,7 @@ class Monitors:
         rec.check(not cross, 'no two atoms closer than r0/2 across the two in-plane periodic directions', okey, across=True, pairs=cross[:3], r0=info['r0'])
         rec.check(not [p for p in pairs if not p[3]], 'no two atoms closer than r0/2 inside the cell', okey, across=False, pairs=pairs[:3], r0=info['r0'])
         # types and boundary
-        nat = int(np.max(info['atype']))
+        nat = info['natypes']
         btype = np.array(base.atoms.atype)
         dtype_ = np.array(disl.atoms.atype)
         if bw > 0:
@@ -517,11 +572,31 @@ def check_disregistry(rec, am, d, last):
     bn = np.linalg.norm(b)
     base, disl, center = last['base'], last['disl'], last['center']
     kind = last['kind']
+    hm, hn, hp = np.array(m, float), np.array(n, float), np.array(center, float)       # handed over; kept to see that they stay as they were
+    kept = (np.array(base.atoms.pos), np.array(disl.atoms.pos))
     try:
-        coord, dr = am.defect.disregistry(base, disl, m=m, n=n, planepos=center)
+        coord, dr = am.defect.disregistry(base, disl, m=hm, n=hn, planepos=hp)
     except Exception as e:
         rec.fail('disregistry of a generated configuration can be evaluated', f'disregistry:{kind}:exception', exception=e)
         return
+    rec.check(np.array_equal(hm, m) and np.array_equal(hn, n) and np.array_equal(hp, np.asarray(center, float))
+              and np.array_equal(kept[0], base.atoms.pos, equal_nan=True) and np.array_equal(kept[1], disl.atoms.pos, equal_nan=True),
+              'disregistry leaves the vectors and systems it was handed as they were', 'disregistry:arguments-rewritten')
+    # the same question again, vectors as list / tuple (and by the documented defaults m=x, n=y, plane through the origin where they apply)
+    asform = (lambda v: [float(x) for x in v]) if disl.natoms % 2 else (lambda v: tuple(float(x) for x in v))
+    c0, d0 = np.array(coord), np.array(dr)
+    try:
+        c2, d2 = am.defect.disregistry(base, disl, m=asform(m), n=asform(n), planepos=asform(center))
+        same = c2.shape == c0.shape and d2.shape == d0.shape and np.array_equal(c2, c0) and np.array_equal(d2, d0) and np.array_equal(coord, c0) and np.array_equal(dr, d0)
+        rec.check(same, 'disregistry gives the same profile when asked again with equal vectors given as list / tuple, and leaves the earlier result alone', 'disregistry:repeat-or-form')
+        rec.count('disregistry:repeat-judged')
+        if np.array_equal(m, [1.0, 0, 0]) and np.array_equal(n, [0, 1.0, 0]) and not np.any(center):
+            c3, d3 = am.defect.disregistry(base, disl)
+            rec.check(c3.shape == c0.shape and np.array_equal(c3, c0) and np.array_equal(d3, d0), 'disregistry with the documented defaults (m = x, n = y, plane through the origin) = the same stated explicitly',
+                      'disregistry:defaults')
+            rec.count('disregistry:defaults-judged')
+    except Exception as e:
+        rec.fail('disregistry accepts its vectors as list / tuple', f'disregistry:{kind}:exception:list-or-tuple', exception=e)
     bp = np.array(base.atoms.pos)
     y = bp @ n - center @ n
     ya, yb = y[y > 0].min(), y[y < 0].max()
@@ -572,6 +647,13 @@ def build_cell(am, cell):
                      box=am.Box(vects=cell['vects'].copy()), scale=True, symbols=list(cell['symbols']))
 
 
+def with_trailing_type(cell):
+    """The same crystal with one more declared, unpopulated atom type at the end."""
+    out = dict(cell)
+    out['symbols'] = list(cell['symbols']) + ['Xx']
+    return out
+
+
 def sextic_gap(Cij, vects, xi, hkl, m, n):
     """(smallest distance between two Stroh eigenvalues of the upper half plane, smallest imaginary part) for the
     elastic problem of this orientation, from the C12 oracle.  Small values = (near-)degenerate problem that the
@@ -583,16 +665,23 @@ def sextic_gap(Cij, vects, xi, hkl, m, n):
     return V.root_gap(c4, m_, n_)
 
 
-def make_dislocation(ctx, am, cell, sc, Cd, mn, init_kw, as_vectors=False):
+def make_dislocation(ctx, am, cell, sc, Cd, mn, init_kw, as_vectors=False, ucell=None, C=None, handed=None):
+    """handed: optional dict(burgers, xi, hkl, m, n) of argument OBJECTS to hand over instead of fresh ones
+    (the caller keeps them and may overwrite them afterwards)."""
     rec = ctx.rec
-    ucell = build_cell(am, cell)
-    C = am.ElasticConstants(**Cd)
+    if ucell is None:
+        ucell = build_cell(am, cell)
+    if C is None:
+        C = am.ElasticConstants(**Cd)
     m, n = mn
     if as_vectors:
         m, n = OC.axis(m).tolist(), OC.axis(n).tolist()
+    h = dict(burgers=sc['burgers'], xi=sc['xi'], hkl=sc['hkl'], m=m, n=n)
+    if handed:
+        h.update(handed)
     d = None
     try:
-        d = am.defect.Dislocation(ucell, C, sc['burgers'], sc['xi'], sc['hkl'], conventional_setting=cell['setting'], m=m, n=n, **init_kw)
+        d = am.defect.Dislocation(ucell, C, h['burgers'], h['xi'], h['hkl'], conventional_setting=cell['setting'], m=h['m'], n=h['n'], **init_kw)
     except ValueError as e:
         hexc = cell['family'] == 'hcp' and np.linalg.norm(np.cross(OC.unit(OC.cart(OC.as3(sc['xi']), cell['vects'])), [0, 0, 1.0])) < 1e-9
         may_be_oblique = tuple(mn) != ('y', 'z') and (sc.get('character') not in ('edge', 'screw') or '{123}' in sc['system'] or cell['family'] == 'hcp')
@@ -726,14 +815,47 @@ CENTER_MODES = ['none', 'cart', 'scaled', 'nextgap']
 SIZE_MODES = ['list', 'default', 'min', 'list+min', 'list', 'tuple', 'list', 'list']
 
 
+def apply_form(rec, kw, form, info, int_center):
+    """Hand the array-like arguments (shift, centre) over as ndarray / list / tuple / float32 array; a Cartesian
+    centre may also be a list of Python ints (whole Angstroms along m and the line, none along n)."""
+    touched = False
+    for key in ('shift', 'center'):
+        if key not in kw:
+            continue
+        v = np.asarray(kw[key], float)
+        if key == 'center' and int_center and not kw.get('centerscale'):
+            v = np.round(v @ info['m']) * info['m'] + np.round(v @ info['xi']) * info['xi']
+            kw[key] = [int(x) for x in np.round(v)]
+            rec.count('form:center-int')
+            touched = True
+            continue
+        if form == 'list':
+            kw[key] = v.tolist()
+        elif form == 'tuple':
+            kw[key] = tuple(v.tolist())
+        elif form == 'float32':
+            kw[key] = v.astype(np.float32)
+        else:
+            kw[key] = v
+        touched = True
+    if touched:
+        rec.count('form:' + form)
+
+
 def run_generator(ctx, mon, am, d, which, kw, do_disreg=True):
     """Call the real generator (monitors fire inside), then the disregistry clause."""
     rec = ctx.rec
     mon.last = None
+    before = {k_: copy.deepcopy(v) for k_, v in kw.items() if isinstance(v, (list, np.ndarray))}
     try:
         getattr(d, which)(**kw)
     except Exception:
         pass                      # recorded and classified by the postcondition monitor
+    same = all(type(kw[k_]) is type(v) and (np.array_equal(kw[k_], v) if isinstance(v, np.ndarray) else kw[k_] == v and [type(x) for x in kw[k_]] == [type(x) for x in v])
+               for k_, v in before.items())
+    if before:
+        rec.check(same, 'a generator leaves the argument objects it was handed (size multipliers, shift, centre) as they were', f'args:caller-objects-rewritten:{which}',
+                  handed={k_: v for k_, v in before.items()}, after={k_: kw[k_] for k_ in before})
     last = mon.last
     if last is None:
         rec.count('harness:monitor-did-not-complete')       # surfaces as a harness error at the end of run()
@@ -741,6 +863,120 @@ def run_generator(ctx, mon, am, d, which, kw, do_disreg=True):
     if last.get('ok') and do_disreg:
         check_disregistry(rec, am, d, last)
     return last
+
+
+
+# --------------------------------------------------------------------------- #
+# alternative construction paths: records
+
+def record_text(rc, cell, sc, mn, probe, rng, k):
+    """(json text, xml text, id) of a dislocation record that states the case's parameters in the case's spellings."""
+    style = rc['style']
+    params = {}
+    hkl, xi, b = np.asarray(sc['hkl'], float), np.asarray(sc['xi'], float), np.asarray(sc['burgers'], float)
+    params['slip_hkl'] = OR.miller_text(hkl, 'bracket' if style == 'fraction' else style)
+    params[OR.XI] = OR.miller_text(xi, 'bracket' if style == 'fraction' else style)
+    params['burgers'] = OR.miller_text(b, style)
+    if rc['axes_stated']:
+        params['m'] = ' '.join(str(int(x)) for x in OC.axis(mn[0]))
+        params['n'] = ' '.join(str(int(x)) for x in OC.axis(mn[1]))
+    what, word = rc['shift'], rc['word']
+    if what in ('absolute', 'relative'):
+        skw, _ = shift_request(probe, rng, 'explicit' if what == 'absolute' else 'scaled', k)
+        params['shift'] = ' '.join(OR.number_text(x) for x in np.asarray(skw['shift'], float))
+        if word is not None:
+            params['shiftscale'] = word
+    elif what == 'index':
+        idx = k % len(probe.shifts)
+        params['shiftindex'] = int(idx) if rc['index_as_int'] else str(int(idx))
+    if cell['setting'] != 'p' or rc['setting_stated']:
+        params['conventional_setting'] = cell['setting']
+    id_ = f"vf--{rc['form']}--{rc['shift']}"
+    doc = OR.document(params, id_=id_, character='mixed' if rc['character'] not in ('edge', 'screw') else rc['character'],
+                      burgers_text=params['burgers'], plane=np.round(hkl), line=np.round(xi))
+    return OR.to_json(doc), OR.to_xml(doc), id_
+
+
+def from_record(am, rc, jtext, xtext, id_, ucell, C, tmp, tag):
+    """Hand the record to the real classmethods in the case's form.  Returns the object and, where the source is an
+    object that can be used again (data model, record object, file, database), a callable building from the SAME source again."""
+    D = am.defect.Dislocation
+    form = rc['form']
+    text = jtext if rc['markup'] == 'json' else xtext
+    if form == 'json-text':
+        return D.fromrecord(jtext, ucell, C), None
+    if form == 'xml-text':
+        return D.fromrecord(xtext, ucell, C), None
+    if form == 'datamodel':
+        from DataModelDict import DataModelDict as DM
+        src = DM(text)
+        return D.fromrecord(src, ucell, C), (lambda: D.fromrecord(src, ucell, C))
+    if form == 'record-object':
+        src = am.library.load_record('dislocation', model=text)
+        return D.fromrecord(src, ucell, C), (lambda: D.fromrecord(src, ucell, C))
+    if form == 'bytes-file':
+        return D.fromrecord(io.BytesIO(text.encode('utf-8')), ucell, C), None
+    if form == 'path':
+        fn = os.path.join(tmp, f'{tag}.{rc["markup"]}')
+        with open(fn, 'w', encoding='utf-8') as f:
+            f.write(text)
+        return D.fromrecord(fn, ucell, C), (lambda: D.fromrecord(fn, ucell, C))
+    # a local reference database holding the one record
+    root = os.path.join(tmp, f'db-{tag}')
+    os.makedirs(os.path.join(root, 'dislocation'), exist_ok=True)
+    with open(os.path.join(root, 'dislocation', id_ + '.json'), 'w', encoding='utf-8') as f:
+        f.write(jtext)
+    db = am.library.Database(local=True, remote=False, localpath=root)
+    return (D.fromdatabase(name=id_, ucell=ucell, C=C, database=db, prompt=False),
+            (lambda: D.fromdatabase(name=id_, ucell=ucell, C=C, database=db, prompt=False)))
+
+
+def check_stated(rec, d, st, cell, probe, how):
+    """The object built from a record is the one the record's TEXT describes (read by the oracle, not by atomman)."""
+    info = d._vf
+    vects = cell['vects']
+    T = OC.dislocation_rotation(vects, OC.as3(st['xi']), OC.as3(st['hkl'], plane=True), st['m'], st['n'])
+    rec.close(1e-9, d.transform, T, 'a Dislocation built from a record has the slip plane, line direction and axes the record states', f'{how}:orientation')
+    b = T @ OC.cart(OC.as3(st['burgers']), vects)
+    rec.close(1e-7 * np.linalg.norm(b), d.dislsol.burgers, b, 'a Dislocation built from a record has the Burgers vector the record states', f'{how}:burgers')
+    mult = OR.CENTRING[st['setting']]
+    rec.check(d.ucell_prim.natoms * mult == len(cell['rel']), 'a Dislocation built from a record uses the cell setting the record states (primitive cell = 1/multiplicity of the given cell)',
+              f'{how}:setting', setting=st['setting'], prim_natoms=d.ucell_prim.natoms, ucell_natoms=len(cell['rel']))
+    if 'oblique' in info['cls']:
+        rec.count('skipped:oblique-class:record-shift')
+        return False
+    Lr = np.abs(info['rv']).max()
+    req = OR.stated_shift(st, info['rv'], info['shifts0'])
+    rec.close(1e-12 * (1 + Lr), d.shift, req, 'a Dislocation built from a record holds the shift the record states (absolute, relative to the rotated cell, by index, or the first offered one)',
+              f'{how}:shift:{st["shift_kind"]}', stated={k_: st.get(k_) for k_ in ('shift', 'scale', 'index')})
+    info['held'] = np.array(req, float)        # what the generators are judged against from here on
+    pi = probe._vf
+    same = (np.abs(np.asarray(d.uvws, float) - np.asarray(probe.uvws, float)).max() < 1e-12 and np.abs(info['rv'] - pi['rv']).max() < 1e-12 * (1 + Lr)
+            and d.rcell.natoms == probe.rcell.natoms and np.abs(d.rcell.atoms.pos - probe.rcell.atoms.pos).max() < 1e-12 * (1 + Lr)
+            and np.abs(info['shifts0'] - pi['shifts0']).max() < 1e-12 * (1 + Lr))
+    rec.check(same, 'built from a record = built by the constructor from the stated values (cell vectors, rotated cell, offered shifts)', f'{how}:differs-from-constructor')
+    rec.count('monitor_ok:record-stated')
+    return True
+
+
+def snap(system):
+    return dict(pos=np.array(system.atoms.pos), atype=np.array(system.atoms.atype), vects=np.array(system.box.vects), origin=np.array(system.box.origin),
+                pbc=[bool(x) for x in system.pbc], symbols=tuple(system.symbols), natoms=int(system.natoms))
+
+
+def snap_equal(a, b, tol):
+    return (a['natoms'] == b['natoms'] and a['pbc'] == b['pbc'] and a['symbols'] == b['symbols'] and np.array_equal(a['atype'], b['atype'])
+            and np.abs(a['pos'] - b['pos']).max() <= tol and np.abs(a['vects'] - b['vects']).max() <= tol and np.abs(a['origin'] - b['origin']).max() <= tol)
+
+
+def state_of(d):
+    return dict(shift=np.array(d.shift, float), shifts=np.array(d.shifts, float), transform=np.array(d.transform, float), uvws=np.array(d.uvws, float),
+                burgers=np.array(d.dislsol.burgers, float), m=np.array(d.dislsol.m, float), n=np.array(d.dislsol.n, float),
+                rpos=np.array(d.rcell.atoms.pos), rvects=np.array(d.rcell.box.vects))
+
+
+def state_equal(a, b, skip=()):
+    return all(a[k_].shape == b[k_].shape and np.array_equal(a[k_], b[k_]) for k_ in a if k_ not in skip)
 
 
 def case_inputs(i, rng, ngroup_offset=0):
@@ -774,7 +1010,10 @@ def run(ctx):
         cmode = CENTER_MODES[(i // 4 + i // 48 + t) % 4]
         zmode = SIZE_MODES[(i + i // 8 + i // 64 + t) % 8]
         k = int(rng.integers(0, 6))
-        sig = ('monopole', struct, sc['system'], character, ''.join(mn), str(bmode), smode, cmode, zmode)
+        sig = ('monopole', struct, sc['system'], character, ''.join(mn), str(bmode), smode, cmode, zmode, GR.ARG_FORMS[(i // 2 + i // 24) % 4])
+        if i % 11 == 5:
+            cell = with_trailing_type(cell)
+            rec.count('form:trailing-unpopulated-type')
         init_kw = {}
         if smode == 'init-index':
             init_kw = dict(shiftindex=k % 2)          # every cell here has at least 2 atomic planes per period
@@ -824,6 +1063,8 @@ def run(ctx):
         elif cmode == 'nextgap':
             rec.count('generator:centre-in-next-gap')
         kw.update(ckw)
+        aform = GR.ARG_FORMS[(i // 2 + i // 24) % 4]
+        apply_form(rec, kw, aform, info, int_center=(cmode == 'cart' and i % 3 == 0))
         kw.update(boundary_request(d, rng, bmode, eff, cell))
         kw['return_base_system'] = bool(i % 2)
         kwrec = {k_: (list(v) if isinstance(v, list) else v) for k_, v in kw.items()}      # as handed over
@@ -847,7 +1088,10 @@ def run(ctx):
         linear = bool((i + i // 8 + t) % 2)
         bwm = (i // 2 + i // 16 + t) % 3                       # 0: none, 1: absolute, 2: scaled
         k = int(rng.integers(0, 6))
-        sig = ('array', struct, sc['system'], character, ''.join(mn), 'linear' if linear else 'solution', smode, cmode, zmode, bwm)
+        sig = ('array', struct, sc['system'], character, ''.join(mn), 'linear' if linear else 'solution', smode, cmode, zmode, bwm, GR.ARG_FORMS[(i // 2 + i // 24 + 1) % 4])
+        if i % 11 == 5:
+            cell = with_trailing_type(cell)
+            rec.count('form:trailing-unpopulated-type')
         init_kw = dict(shiftindex=k % 2) if smode == 'init-index' else {}
         d = make_dislocation(ctx, am, cell, sc, Cd, mn, init_kw, as_vectors=bool(i % 5 == 1))
         if d is None or not hasattr(d, '_vf'):
@@ -875,6 +1119,8 @@ def run(ctx):
             cc = cc - (cc @ info['n']) * info['n']
             ckw['center'] = np.linalg.solve(info['rv'].T, cc) if ckw.get('centerscale') else cc
         kw.update(ckw)
+        aform = GR.ARG_FORMS[(i // 2 + i // 24 + 1) % 4]
+        apply_form(rec, kw, aform, info, int_center=(cmode == 'cart' and i % 3 == 0))
         g = geometry(d)
         if bwm:
             w = rng.uniform(0.1, 0.3) * g['Ln'] * mults[info['cut']]
@@ -974,6 +1220,247 @@ def run(ctx):
         if i < 8:
             rec.sample(dict(struct=struct, system=sc['system'], xi=sc['xi'], ops=[(w, {k_: np.asarray(v).tolist() for k_, v in o.items()}) for w, o in ops], built=nok))
 
+    # ------------------------------------------------ built from a record
+    tmp = tempfile.mkdtemp(prefix='vf-c13-')
+    D = am.defect.Dislocation
+    for i in ctx.cases('record', ctx.pick(112, 840)):
+        rng = ctx.rng
+        rc = GR.record_case(i)
+        cell = GEN.unit_cell(rc['struct'], rng)
+        mn = rc['mn']
+        sc = GEN.slip_case(cell, rng, isys=i // 5, character=rc['character'], iline=i // 7, flip=bool((i // 3) % 2))
+        Cd = GEN.elastic_constants(cell, rng)
+        k = int(rng.integers(0, 6))
+        sig = ('record', rc['form'], rc['markup'], rc['shift'], str(rc['word']), rc['struct'], sc['system'], rc['character'], ''.join(mn), rc['style'],
+               rc['axes_stated'], rc['generator'])
+        probe = make_dislocation(ctx, am, cell, sc, Cd, mn, {})
+        if probe is None or not hasattr(probe, '_vf') or 'oblique' in probe._vf['cls']:
+            rec.case(sig, nontrivial=False)
+            rec.count('record:no-probe')
+            continue
+        jtext, xtext, id_ = record_text(rc, cell, sc, mn, probe, rng, k)
+        st = OR.stated(OR.read_parameters(jtext if (rc['form'] in ('json-text', 'database') or (rc['form'] != 'xml-text' and rc['markup'] == 'json')) else xtext))
+        ucell, C = build_cell(am, cell), am.ElasticConstants(**Cd)
+        how = 'fromdatabase' if rc['form'] == 'database' else 'fromrecord'
+        d, again = None, None
+        with ctx.guard('a Dislocation can be built from a reference record that states what the constructor accepts', f'{how}:exception:{rc["form"]}'):
+            d, again = from_record(am, rc, jtext, xtext, id_, ucell, C, tmp, f'r{i}')
+        if d is None or not hasattr(d, '_vf'):
+            rec.case(sig, nontrivial=False)
+            continue
+        rec.count('record:form:' + rc['form'])
+        rec.count(f'record:shift:{rc["shift"]}:{rc["word"]!r}')
+        written = OR.read_parameters(jtext)
+        rec.count('record:axes-omitted', int('m' not in written))
+        rec.count('record:setting-omitted', int('conventional_setting' not in written))
+        rec.count('record:setting-centred', int(written.get('conventional_setting', 'p') != 'p'))
+        rec.count('record:miller:' + rc['style'])
+        if not check_stated(rec, d, st, cell, probe, how):
+            rec.case(sig, nontrivial=False)
+            continue
+        info = d._vf
+        if again is not None:
+            # the same source object / file / database entry used a second time describes the same dislocation
+            d2 = None
+            with ctx.guard('a record source can be used a second time', f'{how}:second-use:exception'):
+                d2 = again()
+            if d2 is not None:
+                rec.check(state_equal(state_of(d2), state_of(d)), 'a record source used a second time gives the same Dislocation (shift, offered shifts, orientation, rotated cell)',
+                          f'{how}:second-use-differs', form=rc['form'])
+                rec.count('record:second-use-judged')
+        mults = pick_mults(d, rng, 24, 20, 1, cap)
+        kw = dict(sizemults=list(mults), return_base_system=bool(i % 2))
+        if rc['boundary']:
+            kw['boundarywidth'] = float(rng.uniform(0.1, 0.3) * geometry(d)['Ln'] * mults[info['cut']])
+        if rc['generator'] == 'periodicarray':
+            kw['linear'] = bool((i // 2) % 2)
+        last = run_generator(ctx, mon, am, d, rc['generator'], kw)          # no shift argument: the shift the record stated
+        ok = bool(last and last.get('ok'))
+        if ok:
+            rec.count('record:generated-with-stated-shift:' + rc['generator'])
+        rec.case(sig, nontrivial=ok and last['natoms'] > 40, fp=fingerprint(rc['form'], jtext, cell['vects'], Cd, kw))
+        if i < 6:
+            rec.sample(dict(group='record', form=rc['form'], parameters=OR.read_parameters(jtext), stated_shift=info['held'], generator=rc['generator'],
+                            natoms=last['natoms'] if ok else None))
+
+    # ------------------------- two instances, kept results, caller's arrays
+    for i in ctx.cases('pair', ctx.pick(60, 600)):
+        rng = ctx.rng
+        pc = GR.pair_case(i)
+        cell = GEN.unit_cell(pc['struct'], rng)
+        mn, which, route = pc['mn'], pc['generator'], pc['route']
+        sc = GEN.slip_case(cell, rng, isys=0, character=pc['character'], iline=i // 3, flip=bool(i % 2))
+        Cd = GEN.elastic_constants(cell, rng)
+        sig = ('pair', pc['struct'], sc['system'], pc['character'], ''.join(mn), route, which, pc['edit_ucell'], pc['refusal'])
+        ucell, C = build_cell(am, cell), am.ElasticConstants(**Cd)
+
+        def handed():
+            return dict(burgers=np.array(sc['burgers'], float), xi=np.array(sc['xi'], float), hkl=np.array(sc['hkl'], float),
+                        m=OC.axis(mn[0]), n=OC.axis(mn[1]))
+        probe = make_dislocation(ctx, am, cell, sc, Cd, mn, {}, ucell=ucell, C=C)
+        if probe is None or not hasattr(probe, '_vf') or 'oblique' in probe._vf['cls']:
+            rec.case(sig, nontrivial=False)
+            rec.count('pair:no-probe')
+            continue
+        skw, sA_value = shift_request(probe, rng, 'explicit', 1)
+        sA = np.array(sA_value, float)                 # the array object handed over where the route hands one over
+        hA = handed()
+        if route == 'ctor-array':
+            A = make_dislocation(ctx, am, cell, sc, Cd, mn, dict(shift=sA), ucell=ucell, C=C, handed=hA)
+            stated = sA_value.copy()
+        elif route == 'ctor-index':
+            A = make_dislocation(ctx, am, cell, sc, Cd, mn, dict(shiftindex=1), ucell=ucell, C=C, handed=hA)
+            stated = np.array(probe._vf['shifts0'][1])
+        elif route == 'record':
+            rc = dict(GR.record_case(0), style='bare', axes_stated=True, setting_stated=True, shift='absolute', word='False', form='json-text', index_as_int=False)
+            params_rng = np.random.default_rng(int(rng.integers(1 << 30)))
+            jtext, _, _ = record_text(rc, cell, sc, mn, probe, params_rng, 1)
+            stated = OR.stated(OR.read_parameters(jtext))['shift']
+            A = None
+            with ctx.guard('a Dislocation can be built from a reference record that states what the constructor accepts', 'fromrecord:exception:json-text'):
+                A = D.fromrecord(jtext, ucell, C)
+            if A is not None and hasattr(A, '_vf') and 'rv' in A._vf:
+                A._vf['held'] = np.array(stated, float)
+        else:
+            A = make_dislocation(ctx, am, cell, sc, Cd, mn, {}, ucell=ucell, C=C, handed=hA)
+            stated = sA_value.copy()
+            if route == 'set_shift-array' and A is not None:
+                with ctx.guard('set_shift accepts an explicit shift', 'pair:set_shift'):
+                    A.set_shift(sA)
+        if A is None or not hasattr(A, '_vf'):
+            rec.case(sig, nontrivial=False)
+            continue
+        info = A._vf
+        L = np.abs(info['rv']).max()
+        mults = pick_mults(A, rng, 24, 20, 1, cap)
+        cvec = float(rng.uniform(-1, 1)) * geometry(A)['Lm'] * mults[info['motion']] / 8.0 * info['m']
+        bw = float(rng.uniform(0.1, 0.25) * geometry(A)['Ln'] * mults[info['cut']])
+
+        def call_kw():
+            kw_ = dict(sizemults=list(mults), center=np.array(cvec, float), boundarywidth=bw, return_base_system=True)
+            if which == 'periodicarray':
+                kw_['linear'] = bool(i % 2)
+            return kw_
+        K1 = call_kw()
+        if route == 'call-array':
+            K1['shift'] = sA
+        last = run_generator(ctx, mon, am, A, which, K1, do_disreg=False)
+        if not (last and last.get('ok')):
+            rec.case(sig, nontrivial=False)
+            rec.count('pair:first-call-not-built')
+            continue
+        keepA = (A.base_system, A.disl_system)
+        S1 = (snap(keepA[0]), snap(keepA[1]))
+        rec.check(np.abs(np.asarray(A.shift, float) - stated).max() <= 1e-12 * (1 + L), 'the object holds the shift it was asked to hold', 'pair:shift-after-first-call', route=route)
+        stA = state_of(A)
+        stA['shift'] = np.array(stated, float)
+        # (1) the caller overwrites every array it handed over
+        for arr in list(hA.values()) + [sA, K1['center']]:
+            arr[...] = 977.0 + np.arange(arr.size).reshape(arr.shape)
+        K1['sizemults'][:] = [7, 9, 11]
+        now = state_of(A)
+        rec.count('alias:judged')
+        ok_shift = np.array_equal(now['shift'], stA['shift']) or np.abs(now['shift'] - stA['shift']).max() <= 1e-12 * (1 + L)
+        if route in ('ctor-array', 'set_shift-array', 'call-array'):
+            rec.count('alias:shift-array-routes')
+        rec.check(ok_shift, 'the shift a Dislocation holds does not follow later changes to the array the caller handed over', 'alias:caller-shift-array',
+                  route=route, held=now['shift'], stated=stated)
+        rec.check(state_equal(now, stA, skip=('shift',)), 'orientation, Burgers vector, rotated cell and offered shifts do not follow later changes to the arrays the caller handed over',
+                  'alias:caller-arrays', route=route)
+        rec.check(snap_equal(snap(keepA[0]), S1[0], 0.0) and snap_equal(snap(keepA[1]), S1[1], 0.0),
+                  'systems already returned do not follow later changes to the arrays the caller handed over', 'alias:returned-systems-follow-caller-arrays', route=route)
+        if not ok_shift:
+            rec.count('alias:shift-reset-after-detection')
+            A.set_shift(np.array(stated, float))                       # carry on with the stated shift
+        A2 = None
+        with ctx.guard('a Dislocation object can be deep-copied', 'path:deepcopy:exception'):
+            A2 = copy.deepcopy(A)
+        # (2) a default-constructed instance from the SAME unit cell / elastic constants objects (after an in-place edit of the cell)
+        cellB = dict(cell)
+        if pc['edit_ucell']:
+            f = float(rng.uniform(1.03, 1.12))
+            cellB['vects'] = cell['vects'] * f
+            ucell.box_set(vects=cellB['vects'], scale=True)
+            rec.count('pair:ucell-edited-in-place')
+        B = make_dislocation(ctx, am, cellB, sc, Cd, mn, {}, ucell=ucell, C=C)
+        okB = False
+        if B is not None and hasattr(B, '_vf'):
+            lastB = run_generator(ctx, mon, am, B, which, {k_: v for k_, v in call_kw().items() if k_ != 'center'})
+            okB = bool(lastB and lastB.get('ok'))
+            rec.count('pair:second-instance-judged', int(okB))
+        # (3) A and the results kept from it after B was built and used
+        now = state_of(A)
+        rec.check(state_equal(now, stA), 'building and using another Dislocation leaves this one as it was (shift, offered shifts, orientation, rotated cell)',
+                  'leak:instance-state-changed-by-other-instance', route=route, edited=pc['edit_ucell'])
+        rec.check(snap_equal(snap(keepA[0]), S1[0], 0.0) and snap_equal(snap(keepA[1]), S1[1], 0.0),
+                  'systems returned earlier are not overwritten by later constructions', 'leak:earlier-results-overwritten', route=route)
+        # (4) the same call again with equal arguments
+        K2 = call_kw()
+        if route == 'call-array':
+            K2['shift'] = np.array(stated, float)
+        last2 = run_generator(ctx, mon, am, A, which, K2, do_disreg=False)
+        nok = 1 + int(okB)
+        if last2 and last2.get('ok'):
+            nok += 1
+            S2 = (snap(A.base_system), snap(A.disl_system))
+            tol = 1e-12 * (1 + np.abs(S1[0]['vects']).max())
+            rec.check(snap_equal(S2[0], S1[0], tol) and snap_equal(S2[1], S1[1], tol), 'the same call with equal arguments gives the same configuration whatever happened in between',
+                      f'repeat:{which}:different-result', route=route)
+            rec.check(snap_equal(snap(keepA[0]), S1[0], 0.0) and snap_equal(snap(keepA[1]), S1[1], 0.0) and A.base_system is not keepA[0] and A.disl_system is not keepA[1],
+                      'systems returned earlier are not overwritten by a later call on the same object', 'leak:earlier-results-overwritten', route=route, same_object=True)
+            rec.count('repeat:judged')
+        # (5) the deep copy generates the same configuration
+        if A2 is not None:
+            last3 = run_generator(ctx, mon, am, A2, which, call_kw() if route != 'call-array' else dict(call_kw(), shift=np.array(stated, float)), do_disreg=False)
+            if last3 and last3.get('ok'):
+                nok += 1
+                tol = 1e-12 * (1 + np.abs(S1[0]['vects']).max())
+                rec.check(snap_equal(snap(A2.base_system), S1[0], tol) and snap_equal(snap(A2.disl_system), S1[1], tol),
+                          'a deep copy of a Dislocation generates the configuration the original generates', 'path:deepcopy:different-result', route=route)
+                rec.count('path:deepcopy-judged')
+        # (6) a request naming both a shift and a shift index is refused, at every entry point, and changes nothing
+        ent = pc['refusal']
+        before = np.array(A.shift, float)
+        raised = None
+        try:
+            if ent == 'set_shift':
+                A.set_shift(np.array(stated, float), 0)
+            elif ent in ('monopole', 'periodicarray'):
+                getattr(A, ent)(sizemults=list(mults), shift=np.array(stated, float), shiftindex=0)
+            elif ent == 'init':
+                D(ucell, C, sc['burgers'], sc['xi'], sc['hkl'], conventional_setting=cell['setting'], m=mn[0], n=mn[1], shift=np.array(stated, float), shiftindex=0)
+            else:
+                rc = dict(GR.record_case(0), style='bare', axes_stated=True, setting_stated=True, shift='absolute', word=None, form='json-text', index_as_int=False)
+                jt, _, _ = record_text(rc, cell, sc, mn, probe, np.random.default_rng(5), 1)
+                jt = jt.replace('"shift":', '"shiftindex": "0",\n   "shift":', 1)
+                assert OR.stated(OR.read_parameters(jt))['both']
+                D.fromrecord(jt, ucell, C)
+        except ValueError as e:
+            raised = e
+        except Exception as e:
+            raised = e
+            rec.fail('a request naming both a shift and a shift index is refused with ValueError', f'refusal:shift-and-index:{ent}:other-exception', exception=e)
+        rec.count('refusal:judged')
+        rec.check(raised is not None, 'a request naming both a shift and a shift index is refused (documented: "cannot be given with shiftindex")',
+                  f'refusal:shift-and-index:{ent}:accepted')
+        rec.check(np.array_equal(np.array(A.shift, float), before), 'a refused shift request leaves the held shift as it was', f'refusal:shift-and-index:{ent}:state-changed')
+        # (7) arrays the object hands out are not its state: the caller scribbles on them (last: nothing is generated afterwards)
+        want_shift, want_shifts = np.array(A.shift, float), np.array(A.shifts, float)
+        for name in ('shifts', 'shift'):
+            out = getattr(A, name)
+            try:
+                out += 0.37
+            except (ValueError, TypeError):
+                rec.count('alias:handed-out-array-read-only')
+        rec.count('alias:exposure-judged')
+        rec.check(np.array_equal(np.array(A.shift, float), want_shift) and np.array_equal(np.array(A.shifts, float), want_shifts),
+                  'writing into the arrays handed out by .shift / .shifts does not change the shift the object holds or the shifts it offers',
+                  'alias:shift-property-exposes-state', route=route)
+        rec.case(sig, nontrivial=nok >= 3, fp=fingerprint(pc['struct'], mn, sc['xi'], cell['vects'], route, which, Cd, mults, cvec, bw))
+        if i < 5:
+            rec.sample(dict(group='pair', struct=pc['struct'], route=route, generator=which, stated_shift=stated, edited_ucell=pc['edit_ucell'], refusal=ent, built=nok))
+    shutil.rmtree(tmp, ignore_errors=True)
+
     # ------------------------------------------------------------ bookkeeping
     for k, v in monitor.calls.items():
         if isinstance(v, int):
@@ -1016,3 +1503,32 @@ def run(ctx):
     rec.floor('monopole:wrapped-along-line', 1)
     rec.floor('class:standard', 100)
     rec.floor('generator:centre-in-next-gap', 10)
+    # round 4: alternative construction paths, argument forms, two-instance histories
+    for form in GR.FORMS:
+        rec.floor('record:form:' + form, 8)
+    for what, word in GR.SHIFT_STATEMENTS:
+        rec.floor(f'record:shift:{what}:{word!r}', 3)
+    rec.floor('monitor_ok:record-stated', 70)
+    rec.floor('record:axes-omitted', 4)
+    rec.floor('record:second-use-judged', 30)
+    rec.floor('disregistry:repeat-judged', 150)
+    rec.floor('disregistry:defaults-judged', 5)
+    rec.floor('record:setting-omitted', 10)
+    rec.floor('record:setting-centred', 15)
+    for style in GR.MILLER_STYLES:
+        rec.floor('record:miller:' + style, 15)
+    rec.floor('record:generated-with-stated-shift:monopole', 20)
+    rec.floor('record:generated-with-stated-shift:periodicarray', 20)
+    rec.floor('monitor_ok:set_shift', 300)
+    for form in GR.ARG_FORMS:
+        rec.floor('form:' + form, 30)
+    rec.floor('form:center-int', 8)
+    rec.floor('form:trailing-unpopulated-type', 20)
+    rec.floor('alias:judged', 30)
+    rec.floor('alias:shift-array-routes', 18)
+    rec.floor('alias:exposure-judged', 30)
+    rec.floor('pair:second-instance-judged', 25)
+    rec.floor('pair:ucell-edited-in-place', 15)
+    rec.floor('repeat:judged', 25)
+    rec.floor('path:deepcopy-judged', 25)
+    rec.floor('refusal:judged', 30)
